@@ -95,6 +95,7 @@ static void q_meta_push(queue_t *q, int outer, int inner, int sealed) { rmeta_t 
 static rmeta_t q_meta_pop(queue_t *q) { rmeta_t z = { -1, -1, -1, 0, 1 }; if (q->mh == q->mt) return z; return q->m[q->mh++ % MQ]; }
 static uint64_t g_wire_hash[2] = { 1469598103934665603ULL, 1469598103934665603ULL }; static size_t g_wire_len[2];
 static int g_sendchunk = 0;     /* >0: drain outdata by partial sends of this many bytes */
+static int g_rbofsize = 0;     /* 1: feed() asks for room with matrixSslGetReadbufOfSize(chunk) instead of matrixSslGetReadbuf */
 static int g_callsep = 0;       /* print "/" after every matrixSslReceivedData cycle */
 static void q_push(queue_t *q, const unsigned char *d, size_t l) { if (q->len + l <= QCAP) { memcpy(q->b + q->len, d, l); q->len += l; } }
 static void q_pop(queue_t *q, size_t l) { memmove(q->b, q->b + l, q->len - l); q->len -= l; }
@@ -297,7 +298,9 @@ static void feed(peer_t *p, const unsigned char *d, size_t l, size_t chunk) {
     if (!p->ssl) { P("nil"); return; }
     if (chunk == 0) chunk = l ? l : 1;
     while (off < l && guard++ < 100000) {
-        unsigned char *rb; int32 room = matrixSslGetReadbuf(p->ssl, &rb);
+        unsigned char *rb; int32 room;
+        if (g_rbofsize) { size_t want = l - off; if (want > chunk) want = chunk; room = matrixSslGetReadbufOfSize(p->ssl, (int32) want, &rb); }   /* the "I have this many bytes" entry point */
+        else room = matrixSslGetReadbuf(p->ssl, &rb);
         if (room <= 0) { P("rb:E%d ", room); return; }
         size_t n = l - off; if (n > chunk) n = chunk; if (n > (size_t) room) n = (size_t) room;
         memcpy(rb, d + off, n); off += n;
